@@ -16,7 +16,7 @@ from d42.validation import Formatter
 
 from .. import model as M
 from ..codec import src, unsrc
-from ..common import shard_items
+from ..common import safe_repr, shard_items
 from ..runner import Acc, parallel
 from ..terms import E, Builder, show
 from ..universe import INT, NONE, S, STR, call, ln, universe
@@ -87,6 +87,18 @@ def values_for(t, tier):
             if isinstance(w, list) and len(w) >= 1:
                 extra.append([all_bad(x) for x in w] + [all_bad(w[0])])
             extra.append(cp(w))
+            if isinstance(w, list) and len(w) >= 1:
+                # the very same (bad) object at several positions: two siblings, one identity
+                for b in (all_bad(w[0]), {"zz": None}, "q", -5):
+                    extra.append([b, b])
+                    extra.append([cp(w[0]), b, b])
+            if isinstance(w, dict) and len(w) >= 2:
+                ks = list(w)
+                b = all_bad(w[ks[0]])
+                d = cp(w)
+                d[ks[0]] = b
+                d[ks[1]] = b
+                extra.append(d)
     return dedup(vals + extra), capped
 
 
@@ -250,6 +262,19 @@ def fact_holds(e, actual, builder):
 
 def check_errors(t, v, errors, builder, which):
     """Yields (signature, detail) for every broken clause."""
+    # one offence, one error: the same error (kind, path, parameters) twice in one result means
+    # that a sibling's error was filed under this path
+    seen = set()
+    for e in errors:
+        try:
+            key = (type(e).__name__, tuple(repr(k) for k in path_keys(e.path)), safe_repr(e, 400))
+        except Exception:  # noqa: BLE001
+            continue
+        if key in seen:
+            yield (f"C03|{which}|same-error-reported-twice|"
+                   f"{type(e).__name__.replace('ValidationError', '')}", safe_repr(e, 300))
+            break
+        seen.add(key)
     for e in errors:
         name = type(e).__name__.replace("ValidationError", "")
         try:
